@@ -44,6 +44,13 @@ static void families(std::vector<RCfg>& out, bool thorough) {
       if (req) a.req = {1}; else a.excl = {1};
       c.args = {a, b, g}; push(req ? "requires" : "excludes", c, {generic_dom(k0).empty() ? std::vector<std::string>{} : std::vector<std::string>{"5"}, generic_dom(k1).empty() ? std::vector<std::string>{} : std::vector<std::string>{generic_dom(k1)[0]}, {}});
    }
+   // F4+F5 on the SAME partner: g is required by a and excluded by b (both orders of definition), and a partner that is target of two
+   // requirements / two exclusions: every pending rule for a partner must be kept
+   for (int variant = 0; variant < 4; ++variant) for (Kind kg : {FLAG, INT}) {
+      Cfg c; Arg a = mk('a', "alpha", FLAG), b = mk('b', "beta", FLAG), g = mk('g', "gamma", kg);
+      if (variant == 0) { a.req = {2}; b.excl = {2}; } else if (variant == 1) { a.excl = {2}; b.req = {2}; } else if (variant == 2) { a.req = {2}; b.req = {2}; } else { a.excl = {2}; b.excl = {2}; }
+      c.args = {a, b, g}; push("same-partner", c, {{}, {}, kg == FLAG ? std::vector<std::string>{} : std::vector<std::string>{"5"}});
+   }
    // F6 all_of / any_of / one_of
    for (int t = 1; t <= 3; ++t) for (Kind k0 : {FLAG, INT}) for (Kind k1 : {FLAG, STR}) for (int kk = 0; kk < 3; ++kk) {
       Cfg c; c.args = {mk('a', "alpha", k0, kk), mk('b', "beta", k1, 2), mk('g', "gamma", FLAG)}; HConstraint h; h.type = t; h.members = {0, 1}; c.hcs = {h};
